@@ -289,15 +289,13 @@ def tag_haplotypes(rng, m):
     def hap_of(g):
         return g["pieces"][0][0].split("_")[0]
 
-    h1 = [g for g in groups if hap_of(g) == "Hap1"]
-    h2 = [g for g in groups if hap_of(g) == "Hap2"]
-    paint = min(len(h1), len(h2), rng.choice([1, 2, 3]))
+    haps = sorted({hap_of(g) for g in groups if hap_of(g).startswith("Hap")})
+    by_hap = {h: [g for g in groups if hap_of(g) == h] for h in haps}
+    paint = min([len(v) for v in by_hap.values()] + [rng.choice([1, 2, 3])])
     order = []
     for k in range(paint):
-        for g, h in ((h1[k], "Hap1"), (h2[k], "Hap2")):
-            for p in g["pieces"]:
-                if p[0].split("_")[0] != h:
-                    continue
+        for h in haps:
+            g = by_hap[h][k]
             for p in g["pieces"]:
                 p[4][:] = ["Painted", h]
             order.append(g)
@@ -305,9 +303,15 @@ def tag_haplotypes(rng, m):
         # the same haplotype spelt two ways inside one scaffold (the tool refuses this)
         pc = order[0]["pieces"][-1]
         pc[4][:] = [t.upper() if t.startswith("Hap") else t for t in pc[4]]
-    if order and rng.random() < 0.2:
+    if order and rng.random() < 0.4:
         for p in order[0]["pieces"]:
             p[4].append("Primary")
+        if rng.random() < 0.4 and len(haps) > 1:
+            # ... whose explicit haplotype tag disagrees with the name of its first
+            # contig (a chromosome assembled from the other haplotype's scaffold)
+            other = rng.choice([h for h in haps if h != hap_of(order[0])])
+            for p in order[0]["pieces"]:
+                p[4][:] = [(other if t in haps else t) for t in p[4]]
     if len(order) > 2 and rng.random() < 0.2:
         for p in order[-1]["pieces"]:
             p[4].append("Singleton")
@@ -357,11 +361,11 @@ def gen_workload(rng, fasta_backed=True, tagging=True, haps=None, rich_tags=Fals
     """{"bpt", "scaffolds", "map", "fasta" (if FASTA-backed), "tpf", "agp", "pretext_agp"} or None"""
     bpt = rng.choice([8.0, 10.0, 16.5, 23.116333, 40.0, 64.25])
     if haps is None:
-        haps = rng.random() < 0.25
+        haps = rng.random() < 0.33
     if haps:
         scaffolds = []
         n = rng.choice([1, 2, 3])
-        for h in ("Hap1", "Hap2"):
+        for h in (("Hap1", "Hap2") if rng.random() < 0.6 else ("Hap1", "Hap2", "Hap3")):
             scaffolds += gen_scaffolds(rng, bpt, fasta_backed=fasta_backed, n=n, hap_prefix=h)
     else:
         scaffolds = gen_scaffolds(rng, bpt, fasta_backed=fasta_backed)
